@@ -156,7 +156,10 @@ fn stream_adler(input: &[u8], level: i32, chunk: usize, room: usize, wbits: i32,
             }
         }
         miniz_oxide_c_api::mz_deflateEnd(&mut zs);
-        // inflate side
+        // inflate side: the usual MZ_NO_FLUSH loop, and (pass 1) a header-only first call followed by
+        // MZ_FINISH calls - a Finish call that runs out of room returns MZ_BUF_ERROR after delivering
+        // bytes, and the field must be up to date at that return too
+        for pass in 0..2 {
         let mut zi = capi::new_stream();
         if miniz_oxide_c_api::mz_inflateInit2(&mut zi, wbits) != 0 {
             return Err("mz_inflateInit2 failed".into());
@@ -165,12 +168,12 @@ fn stream_adler(input: &[u8], level: i32, chunk: usize, room: usize, wbits: i32,
         let mut out: Vec<u8> = vec![];
         let mut guard = 0;
         loop {
-            let k = chunk.min(comp.len() - ip);
-            let o = capi::stream_call(&mut zi, true, &comp, ip, k, room, 0, Place::End)?;
+            let (k, fl) = if pass == 0 { (chunk.min(comp.len() - ip), 0) } else if ip == 0 { (2.min(comp.len()), 0) } else { (comp.len() - ip, 4) };
+            let o = capi::stream_call(&mut zi, true, &comp, ip, k, room, fl, Place::End)?;
             ip += o.consumed;
             out.extend_from_slice(&o.out);
             n += 1;
-            if wbits > 0 && o.ret >= 0 && !out.is_empty() {
+            if wbits > 0 && (o.ret >= 0 || o.ret == -5) && !out.is_empty() {
                 // (zlib streams only: the property speaks of a zlib decoder)
                 // "output produced so far" = bytes the decoder has decoded: what was handed to the
                 // caller plus at most one window (32 KiB) still pending inside the wrapper. The
@@ -189,7 +192,7 @@ fn stream_adler(input: &[u8], level: i32, chunk: usize, room: usize, wbits: i32,
                 }
                 if !ok {
                     miniz_oxide_c_api::mz_inflateEnd(&mut zi);
-                    return Err(format!("mz_stream.adler = {:#x} after mz_inflate delivered {} bytes in total (ret {}): not the Adler-32 of the delivered output ({:#x}) nor of any plaintext prefix up to one window longer", o.adler, out.len(), o.ret, adler32_def(1, &out)));
+                    return Err(format!("mz_stream.adler = {:#x} after mz_inflate (flush {}) delivered {} bytes in total (ret {}): not the Adler-32 of the delivered output ({:#x}) nor of any plaintext prefix up to one window longer", o.adler, fl, out.len(), o.ret, adler32_def(1, &out)));
                 }
             }
             if o.ret == 1 {
@@ -199,6 +202,10 @@ fn stream_adler(input: &[u8], level: i32, chunk: usize, room: usize, wbits: i32,
                 miniz_oxide_c_api::mz_inflateEnd(&mut zi);
                 return Err(format!("mz_inflate returned {}", o.ret));
             }
+            if o.ret == -5 && fl == 4 && o.written == 0 && o.consumed == 0 {
+                miniz_oxide_c_api::mz_inflateEnd(&mut zi);
+                return Err("mz_inflate(MZ_FINISH) makes no progress".into());
+            }
             guard += 1;
             if guard > 2_000_000 {
                 return Err("mz_inflate loop does not end".into());
@@ -207,6 +214,10 @@ fn stream_adler(input: &[u8], level: i32, chunk: usize, room: usize, wbits: i32,
         miniz_oxide_c_api::mz_inflateEnd(&mut zi);
         if out != input {
             return Err("C round trip differs".into());
+        }
+        if room == 1 || comp.len() < 3 {
+            break; // the Finish pass with 1-byte rooms adds nothing over pass 0
+        }
         }
         Ok(n)
     }
